@@ -125,6 +125,12 @@ def run(ctx):
             key_name = [rc.comp(8, b'p' * sweep[i - n]), rc.comp(8, b'KEY'), rc.comp(8, b'\x01')]
         if rng.random() < 0.1:
             key_name = gen.simple_name(rng, 1, 6)
+        elif i < n and rng.random() < 0.12:
+            # identities whose own name contains the component KEY (a key of a sub-identity named after a key, a name that looks
+            # like a certificate name): the key name is whatever the caller says it is
+            ident = gen.simple_name(rng, 0, 2) + [rc.comp(8, b'KEY')] + gen.simple_name(rng, rng.choice([1, 1, 2, 3]), 3)[:rng.choice([1, 1, 2, 3])]
+            key_name = ident + [rc.comp(8, b'KEY'), rc.comp(8, gen.rand_bytes(rng, rng.choice([1, 4, 8])))]
+            ctx.event('key-name-with-KEY-inside-the-identity')
         locator = gen.simple_name(rng, 1, 3) + [rc.comp(8, b'KEY'), rc.comp(8, b'\x01'), rc.comp(8, b'self'), rc.comp(0x36, b'\x01')]
         if i >= n:
             locator = [rc.comp(8, b'i'), rc.comp(8, b'KEY'), rc.comp(8, b'\x01')]
